@@ -327,10 +327,14 @@ def write_templates(files_lines, d):
 
 # ---------------------------------------------------------------- model-side inputs
 
+# values that compare (and hash) equal but are written differently: 1 / 1.0 / True, 0 / False / 0.0, 2 / 2.0, 7 / 7.0
+EQUAL_TWINS = [1.0, True, False, 0.0, 2, 2.0, 7.0]
+
+
 def rand_usertags(r):
     ut = {}
     for t in r.sample(USER_TAGS, r.randint(0, 4)):
-        ut[t] = r.choice(["", None, 0, 1, 7, "abc", "a,b", "x y", "p,q,r", "3"])
+        ut[t] = r.choice(["", None, 0, 1, 7, "abc", "a,b", "x y", "p,q,r", "3"] + EQUAL_TWINS)
     return ut
 
 
